@@ -22,7 +22,7 @@ import itertools
 
 from ..model import AnalysisError
 from ..sym import U, Run, run_function, is_const
-from ..util import where, strip_await, bind_call
+from ..util import where, strip_await, bind_call, walk_own
 
 NS, EV, STAR = 'ns', 'ev', '*'
 
@@ -260,12 +260,76 @@ def eval_row(f, reg, names):
     return h, a
 
 
+REGISTRY_ATTRS = {'handlers', 'namespace_handlers'}
+
+
+MUTATORS = {'add', 'append', 'update', 'pop', 'discard', 'clear',
+            'setdefault', 'remove', 'insert', 'extend', 'popitem'}
+
+
+def is_config_attr(m, attr):
+    """assigned only in constructors / class bodies and never mutated in
+    place anywhere in the package"""
+    if not m.is_stable_attr(attr):
+        return False
+    cache = m.__dict__.setdefault('_c13_mutated', None)
+    if cache is None:
+        cache = set()
+        for g in m.funcs:
+            for n in ast.walk(g.node):
+                if isinstance(n, ast.Call) and \
+                        isinstance(n.func, ast.Attribute) and \
+                        n.func.attr in MUTATORS and \
+                        isinstance(n.func.value, ast.Attribute):
+                    cache.add(n.func.value.attr)
+        m.__dict__['_c13_mutated'] = cache
+    return attr not in cache
+
+
+def resolver_is_pure(ctx, f, construct):
+    """the resolver is a function of the registry and its arguments alone:
+    it reads no other attribute of the object and stores nothing on it (a
+    cache makes the answer depend on the events seen before a registration,
+    which no finite table over registry states describes)."""
+    m = ctx.model
+    from ..sym import with_new_helpers
+    bad = []
+    for g in with_new_helpers(m, f):
+        for n in walk_own(g.node):
+            if isinstance(n, ast.Attribute) and U(n.value) == 'self':
+                if isinstance(n.ctx, (ast.Store, ast.Del)):
+                    bad.append((g, n, 'writes self.%s' % n.attr))
+                elif n.attr not in REGISTRY_ATTRS and \
+                        m.lookup(f.cls, n.attr) is None and \
+                        not is_config_attr(m, n.attr):
+                    bad.append((g, n, 'reads self.%s' % n.attr))
+            if isinstance(n, (ast.Global, ast.Nonlocal)):
+                bad.append((g, n, 'uses %s state' % type(n).__name__.lower()))
+    seen = set()
+    for g, n, what in bad:
+        if what in seen:
+            continue
+        seen.add(what)
+        ctx.bad(construct, 'resolver-state ' + what, 'the handler resolver '
+                '%s: the responsible handler then depends on which events '
+                'arrived before a registration, not on the registry alone '
+                '(a handler registered later under a catch-all key is never '
+                'consulted for an event resolved earlier)' % what,
+                where(g, n))
+    ctx.check(not bad, construct, 'the resolver reads only the registry and '
+              'its arguments and stores nothing', key='resolver-pure',
+              where=where(f))
+    return not bad
+
+
 def table_rule(ctx, cname, fname, states, spec, names_of):
     m = ctx.model
     _MODEL[0] = m
     f = m.method(cname, fname)
     names = names_of(f)
     construct = '%s.%s' % (cname, fname)
+    if not resolver_is_pure(ctx, f, construct):
+        return 0
     rows = 0
     for reg in states():
         rows += 1
